@@ -65,7 +65,15 @@ func RestoreCreateContainerV2Request(contractCalls []event.NotaryEvent) (event.E
 	res.MainTransaction = *cnrCall.Raw().MainTransaction
 
 	if withOptionalEacl {
-		ev, err := RestorePutContainerEACLRequest(contractCalls[1])
+		eaclCall := contractCalls[1]
+		if eaclCall.ScriptHash() != cnrCall.ScriptHash() {
+			return nil, fmt.Errorf("additional eACL setting call is addressed to another contract: %s", eaclCall.ScriptHash().StringLE())
+		}
+		if eaclCall.Type() != event.NotaryTypeFromString(fschaincontracts.PutContainerEACLMethod) {
+			return nil, fmt.Errorf("unexpected method of additional contract call: %s", eaclCall.Type())
+		}
+
+		ev, err := RestorePutContainerEACLRequest(eaclCall)
 		if err != nil {
 			return nil, fmt.Errorf("additional eACL setting parsing: %w", err)
 		}
